@@ -770,6 +770,16 @@ theorem dictToPaths_pathsToDict_perm (pl : List (Path × Val))
   obtain ⟨kvs', hf, hg⟩ := fold_perm pl [] hall hpf (by simp [dictToPaths.goList])
   exact ⟨.dict kvs', hf, by simpa [dictToPaths, dictToPaths.goList] using hg⟩
 
+/-- … and `hierarchy_depth` enumerates what `paths_to_dict` was given, for every prefix-free list:
+the dictionary built is a dictionary (never a bare leaf), and its `hierarchy_depth` is the list up
+to the grouping of common prefixes. -/
+theorem hierarchyDepth_pathsToDict_perm (pl : List (Path × Val))
+    (hall : ∀ pv ∈ pl, pv.1 ≠ [] ∧ ∀ kvs, pv.2 ≠ .dict kvs)
+    (hpf : pl.Pairwise (fun a b => (¬ a.1 <+: b.1) ∧ ¬ b.1 <+: a.1)) :
+    ∃ kvs, pathsToDict pl = .ok (.dict kvs) ∧ (hierarchyDepth [] kvs).Perm pl := by
+  obtain ⟨kvs', hf, hg⟩ := fold_perm pl [] hall hpf (by simp [dictToPaths.goList])
+  exact ⟨kvs', hf, by simpa [hierarchyDepth, dictToPaths.goList] using hg⟩
+
 /-- the hypotheses are met by a list that shares prefixes at two depths and interleaves them -/
 example : ([(["a", "b", "x"], Val.int 1), (["c"], .int 2), (["a", "d"], .int 3), (["a", "b", "y"], .int 4)] :
     List (Path × Val)).Pairwise (fun a b => (¬ a.1 <+: b.1) ∧ ¬ b.1 <+: a.1) := by decide
